@@ -3,10 +3,21 @@
 
 #include "model.h"
 
+static int lower(int c) { return (c >= 'A' && c <= 'Z') ? c + 32 : c; }
+
 int m_cmp(int kind, const void *a, size_t alen, const void *b, size_t blen) {
   size_t n = alen < blen ? alen : blen;
   int r;
   switch (kind) {
+    case CMP_NOCASE: {
+      const unsigned char *x = a, *y = b;
+      size_t i;
+      for (i = 0; i < n; i++) {
+        int cx = lower(x[i]), cy = lower(y[i]);
+        if (cx != cy) return cx < cy ? -1 : 1;
+      }
+      return alen < blen ? -1 : alen > blen;
+    }
     case CMP_LENFIRST:
       if (alen != blen) return alen < blen ? -1 : 1;
       r = n ? memcmp(a, b, n) : 0;
@@ -32,12 +43,19 @@ static int cmp_lenfirst(const ldb_comparator_t *c, const ldb_slice_t *x, const l
   return m_cmp(CMP_LENFIRST, x->data, x->size, y->data, y->size);
 }
 
+static int cmp_nocase(const ldb_comparator_t *c, const ldb_slice_t *x, const ldb_slice_t *y) {
+  (void)c;
+  return m_cmp(CMP_NOCASE, x->data, x->size, y->data, y->size);
+}
+
+static const ldb_comparator_t nocase_comparator = ldb_comparator("verif.NoCase", cmp_nocase, NULL);
 static const ldb_comparator_t reverse_comparator = ldb_comparator("verif.Reverse", cmp_reverse, NULL);
 static const ldb_comparator_t lenfirst_comparator = ldb_comparator("verif.LengthFirst", cmp_lenfirst, NULL);
 
 const ldb_comparator_t *m_comparator(int kind) {
   if (kind == CMP_REVERSE) return &reverse_comparator;
   if (kind == CMP_LENFIRST) return &lenfirst_comparator;
+  if (kind == CMP_NOCASE) return &nocase_comparator;
   return ldb_bytewise_comparator;
 }
 
@@ -108,16 +126,32 @@ static void push_ver(mrow_t *r, mver_t e) {
   r->v[r->nv++] = e;
 }
 
-uint64_t m_put(model_t *m, int row, uint64_t vid, uint32_t vlen) {
+uint64_t m_put_spell(model_t *m, int row, uint64_t vid, uint32_t vlen, uint32_t spell) {
   mver_t e;
-  e.ver = ++m->version; e.present = 1; e.vid = vid; e.vlen = vlen;
+  e.ver = ++m->version; e.present = 1; e.vid = vid; e.vlen = vlen; e.spell = spell;
   push_ver(&m->rows[row], e);
   return m->version;
 }
 
+uint64_t m_put(model_t *m, int row, uint64_t vid, uint32_t vlen) { return m_put_spell(m, row, vid, vlen, 0); }
+
+void m_spelled_key(const model_t *m, int row, uint32_t spell, uint8_t *out) {
+  const mrow_t *r = &m->rows[row];
+  size_t i;
+  for (i = 0; i < r->klen; i++) {
+    int c = r->key[i];
+    if (spell != 0 && ((c >= 'a' && c <= 'z') || (c >= 'A' && c <= 'Z'))) {
+      uint32_t h = (spell + (uint32_t)i * 2654435761u);
+      h ^= h >> 15; h *= 0x2c1b3c6d; h ^= h >> 12;
+      if (h & 1) c ^= 32;
+    }
+    out[i] = (uint8_t)c;
+  }
+}
+
 uint64_t m_del(model_t *m, int row) {
   mver_t e;
-  e.ver = ++m->version; e.present = 0; e.vid = 0; e.vlen = 0;
+  e.ver = ++m->version; e.present = 0; e.vid = 0; e.vlen = 0; e.spell = 0;
   push_ver(&m->rows[row], e);
   return m->version;
 }
